@@ -32,7 +32,7 @@ int main(int argc, char **argv) {
     if (cid.compare(0, 3, "FZ|") == 0 || cid.compare(0, 3, "FO|") == 0) return replay_fz(cid);
     if (cid.compare(0, 4, "C17|") == 0 || cid.compare(0, 3, "C19") == 0) return replay_fi(cid);
     if (cid.compare(0, 4, "C20|") == 0) return replay_cli(cid);
-    if (cid.compare(0, 4, "C07|") == 0 || cid.compare(0, 4, "C08|") == 0 || cid.compare(0, 5, "C08U|") == 0) return replay_buf(cid);
+    if (cid.compare(0, 4, "C07|") == 0 || cid.compare(0, 4, "C08|") == 0 || cid.compare(0, 5, "C08U|") == 0 || cid.compare(0, 5, "C08M|") == 0) return replay_buf(cid);
     if (cid.size() > 5 && cid[0] == 'C' && (cid[3] == '|' || cid[4] == '|')) return replay_hist(prop, cid, 1);
     if (prop == "C11" || prop == "C16") return replay_modes(prop, cid);
     return replay_line(prop, cid);
